@@ -16,10 +16,13 @@ All theorems are about the transcribed model `LenaModel/Model/C06.lean`, for **a
   (`Std.IsLinearOrder`, `Std.LawfulOrderLT`; instances exist for `Int`, `Nat`, `Rat`);
 * `β` — bin contents and weights: any commutative monoid (`Lean.Grind.AddCommMonoid`);
 * edge arrays of any length, any number of dimensions, any number of fills;
-* the floating-point interpolation guess of the search is an arbitrary function with values in
-  `[ind_min, ind_max]` (`GuessOK`): the result does not depend on it (`bin1d_guess_independent`).
+* the floating-point interpolation guess of the search is an arbitrary function; the theorems of
+  this file assume it has values in `[ind_min, ind_max]` (`GuessOK`) — a hypothesis that
+  `Props/C06At.lean` removes altogether (section "every guess", the code after lena 4fbe73b): read
+  the theorems there (`bin1d_correct`, `fill_correct`, `weight_conserved_any`, …) as the carriers of the
+  property; the result does not depend on the guess (`bin1d_guess_independent`).
 
-Vocabulary (`Lemmas/C06.lean`): `StrictInc arr` (pairwise `<`), `countLE arr v` (number of edges
+Vocabulary (`Model/C06Spec.lean`, executed by the driver): `StrictInc arr` (pairwise `<`), `countLE arr v` (number of edges
 `≤ v`), `ValidAxis` (≥ 2 strictly increasing edges), `ValidEdges` (≥ 1 axis, all valid),
 `InCell axes xs idx` (the half-open cell `idx` contains the point `xs`), `indices axes xs`
 (`countLE − 1` per axis), `total` (sum of all cells), `NArr.modifyAt`, `NArr.get?` (`Model/NArr.lean`).
